@@ -1,6 +1,8 @@
 package main
 
 import (
+	"k8s.io/apimachinery/pkg/api/resource"
+
 	"encoding/json"
 	"fmt"
 	"math/rand"
@@ -598,6 +600,7 @@ func (c *streamCtx) dirC20() []genCase {
 			}
 		}
 	}
+	out = append(out, c.hugeDeltaWorlds()...)
 	// malformed objects, one kind at a time
 	type mal struct {
 		name string
@@ -726,6 +729,118 @@ func (c *streamCtx) dirRare() []genCase {
 		b.util(120, 0, true, false)
 		b.done()
 		out = append(out, single(s, "rare: fleet mode "+v))
+	}
+	return out
+}
+
+// hugeDeltaWorlds: utilisation so absurd that the scale-up delta runs into the billions (before /repo commit 0dab031
+// untaintNewestN reserved a slice of that capacity and the process died with "out of memory").
+func (c *streamCtx) hugeDeltaWorlds() []genCase {
+	out := []genCase{}
+	for i, v := range []string{"two-byte node, 1Gi overhead, threshold 3", "pod asking for 4e10 cores", "dry mode", "from zero with a one-byte cache"} {
+		s := newSpec(c.base, nsOffsets[i%3])
+		b := s.group("g1")
+		b.o.MaxNodes, b.asgMax = 12, 12
+		b.node(0, 7200)
+		b.node(1, 7300, escAge(c.base, 100))
+		switch i {
+		case 0, 2:
+			b.o.TaintLowerCapacityThresholdPercent, b.o.TaintUpperCapacityThresholdPercent, b.o.ScaleUpThresholdPercent = 1, 2, 3
+			withAlloc("4", "1500m")(b.nodes[0])
+			p := b.pod(b.nodeName(0), 0, 0)
+			p.Spec.Overhead = v1.ResourceList{v1.ResourceMemory: resource.MustParse("1Gi")}
+			b.o.DryMode = i == 2
+			if i == 2 {
+				b.st.TaintTracker = []string{b.nodeName(1)}
+			}
+		case 1:
+			p := b.pod("", 0, 0)
+			p.Spec.Containers[0].Resources.Requests = v1.ResourceList{v1.ResourceCPU: resource.MustParse("40000000000")}
+		case 3:
+			b.o.MinNodes = 0
+			b.nodes[0].Spec.Taints = []v1.Taint{{Key: escKey, Value: fmt.Sprint(c.base - 50), Effect: v1.TaintEffectNoSchedule}}
+			withAlloc("1m", "1")(b.nodes[0])
+			b.pod("", 8000, 32*gib)
+		}
+		b.done()
+		out = append(out, single(s, "C20 huge scale-up delta: "+v))
+	}
+	return out
+}
+
+// ---------- C05, scan side: the node-size cache and the scale-up composition ----------
+func (c *streamCtx) dirC05S() []genCase {
+	out := []genCase{}
+	idx := 0
+	type cache struct {
+		name     string
+		cpu, mem int64
+	}
+	caches := []cache{{"none", 0, 0}, {"same", 4000, 16 * gib}, {"smaller", 2000, 8 * gib}, {"larger", 16000, 64 * gib}, {"cpu only", 4000, 0}, {"odd", 3900, 16642998272}}
+	// every decision branch with a pre-scan cache that differs from the listed nodes' size
+	for br := range branchNames {
+		for _, ch := range caches {
+			idx++
+			s := c.branchWorld(br, variant{}, nsOffsets[idx%3])
+			s.Groups[0].State.CacheCPU, s.Groups[0].State.CacheMem = ch.cpu, ch.mem
+			out = append(out, single(s, fmt.Sprintf("C05S branch=%s cache=%s", branchNames[br], ch.name)))
+		}
+	}
+	// the first listed node decides the cache: odd first nodes (cordoned, tainted, no cpu, fractional, other sizes later in the list)
+	firsts := []struct {
+		name string
+		f    func(n *v1.Node)
+	}{{"cordoned 8-cpu", func(n *v1.Node) { n.Spec.Unschedulable = true; withAlloc("8", "32Gi")(n) }}, {"tainted 2-cpu", func(n *v1.Node) {
+		withAlloc("2", "8Gi")(n)
+		n.Spec.Taints = []v1.Taint{{Key: escKey, Value: fmt.Sprint(c.base - 100), Effect: v1.TaintEffectNoSchedule}}
+	}}, {"no cpu", func(n *v1.Node) { withAlloc("", "16Gi")(n) }}, {"no allocatable", func(n *v1.Node) { n.Status.Allocatable = nil }},
+		{"fractional", func(n *v1.Node) { withAlloc("3900m", "15.5Gi")(n) }}, {"force-tainted", func(n *v1.Node) { withAlloc("16", "64Gi")(n); forced()(n) }}}
+	for _, fk := range firsts {
+		for _, pct := range []int64{5, 55, 150, 400} {
+			for _, ch := range caches[:3] {
+				idx++
+				s := newSpec(c.base, nsOffsets[idx%3])
+				b := s.group("g1")
+				b.o.MaxNodes, b.asgMax = 12, 12
+				fk.f(b.node(0, 9000))
+				b.node(1, 7200)
+				b.node(2, 7300)
+				b.st.CacheCPU, b.st.CacheMem = ch.cpu, ch.mem
+				b.util(pct, 0, idx%2 == 0, false)
+				b.done()
+				out = append(out, single(s, fmt.Sprintf("C05S first node %s, band %d, cache %s", fk.name, pct, ch.name)))
+			}
+		}
+	}
+	// groups listing no node: scale-up from zero composes its request from the cache (or 1 without one); requests on and around
+	// multiples of the cached size; every node tainted (capacity zero, the cache is refreshed from the tainted first node)
+	for _, ch := range caches {
+		for _, req := range [][2]int64{{0, 0}, {1, 1}, {2800, 11 * gib}, {2801, gib}, {4000, 16 * gib}, {8400, gib}, {8401, gib}, {100, 45 * gib}, {30000, 100 * gib}} {
+			for _, shape := range []string{"no nodes", "all tainted", "all cordoned", "locked"} {
+				idx++
+				if !c.thorough && idx%3 != 0 {
+					continue
+				}
+				s := newSpec(c.base, nsOffsets[idx%3])
+				b := s.group("g1")
+				b.o.MinNodes, b.o.MaxNodes, b.asgMax = 0, 12, 12
+				switch shape {
+				case "all tainted":
+					b.node(0, 9000, escAge(c.base, 100), withAlloc("2", "8Gi"))
+					b.node(1, 9100, escAge(c.base, 1000))
+				case "all cordoned":
+					b.node(0, 9000, cordoned(), withAlloc("8", "32Gi"))
+				case "locked":
+					b.lockInside(100, 1)
+				}
+				b.st.CacheCPU, b.st.CacheMem = ch.cpu, ch.mem
+				if req[0] != 0 || req[1] != 0 {
+					b.pod("", req[0], req[1])
+				}
+				b.done()
+				out = append(out, single(s, fmt.Sprintf("C05S %s, cache %s, requests %dm/%dB", shape, ch.name, req[0], req[1])))
+			}
+		}
 	}
 	return out
 }
